@@ -135,7 +135,10 @@ class SimulatedExecutionEnvironment(ExecutionEnvironment):
         symbol_to_fnode = {}
         cnt = 0
         for hf in problem.hidden_fluents:
-            if not hf.is_not():
+            # a fluent may occur only negated in the oneof/or constraints
+            if hf.is_not():
+                hf = hf.arg(0)
+            if hf not in fnode_to_symbol:
                 s = Symbol(f"v_{cnt}")
                 fnode_to_symbol[hf] = s
                 symbol_to_fnode[s] = hf
